@@ -474,3 +474,637 @@ def rule_ovf(ctx):
     _, _, pf2 = analyse(pc_text.replace('{ PY_LONG_LONG llx; llx = lla * llb; return PyLong_FromLongLong(llx); }', pc_ok), '__Pyx_Unpacked_', 2 ** 30, [15, 30])
     r.positive_control(bool(pf) and not pf2, 'two-digit long long multiplication without head-room is reported, the same addition is not')
     return r
+
+
+# ====================================================================================== fourth round
+"""C36-BOUNDS  Buffer.put_buffer_lookup_code (the one emitter of the index checks for buffer and memoryview element access) is
+              partially evaluated on a model code writer for every flag combination (boundscheck x wraparound x negative_indices x
+              signed / unsigned index); the emitted C is executed on the complete partition of an index relative to the extent
+              (extent 1 and 3, index in [-extent-2, extent+2], C conversion rules): with boundscheck the error exit is taken exactly
+              for indices outside [0, extent) (after wrap-around where enabled) and the access uses the wrapped index; without
+              boundscheck a negative index is wrapped exactly when wraparound is on.
+C36-VALIDX  __Pyx_is_valid_index(i, limit) is true exactly for 0 <= i < limit (Py_ssize_t operands, C conversion rules).
+C36-INIT    NameNode.generate_result_code emits the unbound / uninitialised check for a local exactly when the variable may be
+              NULL and NULL is not allowed and it is an object or (memoryview and initializedcheck); put_error_if_unbound and the
+              memoryview-attribute check of AttributeNode test `!<value>`, raise, and leave through the error label.
+C36-SHIFTW  every << / >> of the PyLongBinop unpacked fast path (Lshift / Rshift, constant on the right) has a shift count below
+              the width of the shifted type for every count the Optimize.py handlers admit, unless the statement is guarded by a
+              width test (host data model: finding; other data models: information)."""
+from .sC32 import Mini, Opaque, TypedEval, C_NAMED
+
+BUFFER_PY = 'Cython/Compiler/Buffer.py'
+
+
+class _ModelCode:
+    def __init__(self):
+        self.lines, self.cur, self.temps = [], '', 0
+        self.funcstate = self
+        self.globalstate = self
+
+    def putln(self, text=''):
+        self.lines.append(self.cur + text)
+        self.cur = ''
+
+    def put(self, text):
+        self.cur += text
+
+    def unlikely(self, c):
+        return 'unlikely(%s)' % c
+
+    def likely(self, c):
+        return 'likely(%s)' % c
+
+    def allocate_temp(self, *a, **k):
+        self.temps += 1
+        return 'failed%d' % self.temps
+
+    def release_temp(self, name):
+        pass
+
+    def error_goto(self, pos):
+        return 'goto error;'
+
+    def use_utility_code(self, *a, **k):
+        pass
+
+    def text(self):
+        return '\n'.join(self.lines + ([self.cur] if self.cur else []))
+
+
+class _ModelEntry:
+    def __init__(self, n):
+        self.n = n
+
+    def get_buf_shapevars(self):
+        return ['n%d' % k for k in range(self.n)]
+
+    def generate_buffer_lookup_code(self, code, index_cnames):
+        return 'LOOKUP(%s)' % ', '.join(index_cnames)
+
+
+def emitted_bounds_code(fn, boundscheck, wraparound, negative_indices, signed):
+    code, entry = _ModelCode(), _ModelEntry(1)
+    params = [a.arg for a in fn.args.args]
+    want = ['entry', 'index_signeds', 'index_cnames', 'directives', 'pos', 'code', 'negative_indices', 'in_nogil_context']
+    if params != want:
+        raise AnalysisError('C36-BOUNDS: put_buffer_lookup_code%r, expected %r' % (tuple(params), tuple(want)))
+    mini = Mini((_ModelCode, _ModelEntry), {}, 'put_buffer_lookup_code')
+    res = mini.run(fn, {'entry': entry, 'index_signeds': [1 if signed else 0], 'index_cnames': ['i0'], 'directives': {'boundscheck': boundscheck, 'wraparound': wraparound},
+                        'pos': ('<model>', 1, 1), 'code': code, 'negative_indices': negative_indices, 'in_nogil_context': False})
+    if res != 'LOOKUP(i0)':
+        raise AnalysisError('C36-BOUNDS: put_buffer_lookup_code returns %r, not the lookup expression on the (checked) index variables' % (res,))
+    return code.text()
+
+
+class CExec:
+    """Executes the few statement forms of the emitted bounds code on typed integer variables (C conversion rules via TypedEval)."""
+
+    def __init__(self, env):
+        self.env = dict(env)          # name -> (type, value)
+        self.calls, self.left = [], None
+
+    def run(self, text):
+        for st in pC17.parse_body('{' + strip_c_comments(text) + '}'):
+            if self.stmt(st) == 'stop':
+                return
+
+    def cond(self, text):
+        t, v = TypedEval(self.env, None).ev(cexpr.parse(text))
+        return bool(v)
+
+    def stmt(self, st):
+        if self.left:
+            return 'stop'
+        k = st.kind
+        if k == 'block':
+            for s in st.body:
+                if self.stmt(s) == 'stop':
+                    return 'stop'
+            return None
+        if k == 'if':
+            branch = st.body if self.cond(st.text) else st.orelse
+            if branch is None:
+                return None
+            for s in pC17.as_list(branch):
+                if self.stmt(s) == 'stop':
+                    return 'stop'
+            return None
+        if k != 'simple':
+            raise AnalysisError('C36-BOUNDS: emitted statement kind %s is not modelled' % k)
+        t = st.text.strip()
+        if not t or t.startswith('/*'):
+            return None
+        m = re.match(r'^goto\s+(\w+)$', t)
+        if m:
+            self.left = m.group(1)
+            return 'stop'
+        m = re.match(r'^([A-Za-z_]\w*)\s*(\+|-)?=(?!=)\s*(.+)$', t)
+        if m:
+            name, op, rhs = m.group(1), m.group(2), m.group(3)
+            if name not in self.env:
+                raise AnalysisError('C36-BOUNDS: emitted code assigns unknown variable %s' % name)
+            ty = self.env[name][0]
+            expr = cexpr.parse('%s %s (%s)' % (name, op, rhs)) if op else cexpr.parse(rhs)
+            _, v = TypedEval(self.env, None).ev(expr)
+            from .sC32 import conv
+            self.env[name] = (ty, conv(v, ty))
+            return None
+        m = re.match(r'^([A-Za-z_]\w*)\s*\((.*)\)$', t)
+        if m:
+            self.calls.append(m.group(1))
+            return None
+        raise AnalysisError('C36-BOUNDS: emitted statement %r is not modelled' % t[:60])
+
+
+def bounds_problems(fn):
+    probs, n = [], 0
+    ssize, usize = C_NAMED['Py_ssize_t'], C_NAMED['size_t']
+    for boundscheck, wraparound, neg, signed in itertools.product((True, False), (True, False), (True, False), (True, False)):
+        text = emitted_bounds_code(fn, boundscheck, wraparound, neg, signed)
+        wrap = wraparound and neg and signed
+        mode = 'boundscheck=%s, wraparound=%s, negative_indices=%s, %s index' % (boundscheck, wraparound, neg, 'signed' if signed else 'unsigned')
+        for extent in (1, 3):
+            for i in range(-extent - 2 if signed else 0, extent + 3):
+                n += 1
+                env = {'i0': (ssize if signed else usize, i), 'n0': (ssize, extent)}
+                for k in range(1, 4):
+                    env['failed%d' % k] = (C_NAMED['int'], 12345)
+                ex = CExec(env)
+                try:
+                    ex.run(text)
+                except cexpr.EvalError as e:
+                    raise AnalysisError('C36-BOUNDS: cannot evaluate the emitted code for %s: %s' % (mode, e))
+                final = ex.env['i0'][1]
+                wrapped = i + extent if (wrap and i < 0) else i
+                ok = 0 <= wrapped < extent
+                if boundscheck:
+                    if ok and ex.left:
+                        probs.append(('reject', mode, 'index %d of an axis of extent %d is rejected (IndexError) although it is valid' % (i, extent)))
+                    elif not ok and not ex.left:
+                        probs.append(('accept', mode, 'index %d of an axis of extent %d passes the bounds check: the element access is %d position(s) outside the buffer' % (
+                            i, extent, (final - extent + 1) if final >= extent else -final)))
+                    elif ok and final != wrapped:
+                        probs.append(('index', mode, 'index %d of an axis of extent %d is accessed as %d instead of %d' % (i, extent, final, wrapped)))
+                    elif not ok and ex.left and not any('IndexError' in c for c in ex.calls):
+                        probs.append(('raise', mode, 'the error exit is taken without raising IndexError'))
+                else:
+                    if ex.left or final != wrapped:
+                        probs.append(('index', mode, 'index %d of an axis of extent %d is accessed as %s instead of %d' % (i, extent, 'an error' if ex.left else final, wrapped)))
+    return n, probs
+
+
+def rule_bounds(ctx):
+    import itertools as _it
+    r = Rule('C36-BOUNDS', 'index checks emitted by Buffer.put_buffer_lookup_code (buffer and memoryview element access): error exit exactly for indices outside [0, extent) after the enabled '
+                           'wrap-around, access with the wrapped index (all flag combinations, complete index partition around extents 1 and 3)', floor=150)
+    fn = ctx.index.mod('Buffer').functions.get('put_buffer_lookup_code')
+    if fn is None:
+        raise AnalysisError('Buffer.put_buffer_lookup_code vanished')
+    n, probs = bounds_problems(fn)
+    for k in range(n):
+        r.inst('bounds:case%d' % k)
+    seen = set()
+    for kind, mode, what in probs:
+        if kind in seen:
+            continue
+        seen.add(kind)
+        r.violate('Buffer.put_buffer_lookup_code:%s' % kind, BUFFER_PY, fn.lineno, 'put_buffer_lookup_code with %s: %s' % (mode, what))
+    pc = ast.parse('''
+def put_buffer_lookup_code(entry, index_signeds, index_cnames, directives, pos, code, negative_indices, in_nogil_context):
+    if directives['boundscheck']:
+        tmp = code.funcstate.allocate_temp(None, manage_ref=False)
+        code.putln("%s = -1;" % tmp)
+        for dim, (signed, cname, shape) in enumerate(zip(index_signeds, index_cnames, entry.get_buf_shapevars())):
+            code.putln("if (%s > %s) %s = %d;" % (cname, shape, tmp, dim))
+        code.putln("if (%s != -1) { __Pyx_RaiseBufferIndexError(%s); goto error; }" % (tmp, tmp))
+    return entry.generate_buffer_lookup_code(code, index_cnames)
+''').body[0]
+    r.positive_control(any(k == 'accept' for k, _, _ in bounds_problems(pc)[1]), 'upper bound tested with > and no lower bound')
+    return r
+
+
+import itertools
+
+
+def rule_validx(ctx):
+    r = Rule('C36-VALIDX', '__Pyx_is_valid_index(i, limit) is true exactly for 0 <= i < limit (evaluated with C conversion rules on the complete partition of i relative to limit)', floor=20)
+    ds = [d for d in ctx.cat.decls.get('__Pyx_is_valid_index', []) if d.kind == 'func' and d.body]
+    if len(ds) != 1:
+        raise AnalysisError('C36-VALIDX: %d definitions of __Pyx_is_valid_index' % len(ds))
+    d = ds[0]
+    names = d.param_names()
+    m = re.fullmatch(r'\{\s*return\s+(.+?);\s*\}', ' '.join(d.body.split()))
+    if not m or len(names) != 2:
+        raise AnalysisError('C36-VALIDX: __Pyx_is_valid_index is no longer a single return expression of two parameters')
+    expr = cexpr.parse(m.group(1))
+    ptypes = []
+    for t in d.param_types():
+        if t not in C_NAMED:
+            raise AnalysisError('C36-VALIDX: parameter type %s is not modelled' % t)
+        ptypes.append(C_NAMED[t])
+    bad = None
+    for limit in (0, 1, 3, 2 ** 62):
+        for i in sorted({-2 ** 63, -limit - 1, -limit, -1, 0, 1, limit - 1, limit, limit + 1, 2 ** 63 - 1}):
+            if not (-2 ** 63 <= i <= 2 ** 63 - 1):
+                continue
+            r.inst('validx:%d:%d' % (limit, i))
+            try:
+                _, v = TypedEval({names[0]: (ptypes[0], i), names[1]: (ptypes[1], limit)}, None).ev(expr)
+            except cexpr.EvalError as e:
+                raise AnalysisError('C36-VALIDX: cannot evaluate `%s`: %s' % (m.group(1), e))
+            if bool(v) != (0 <= i < limit) and bad is None:
+                bad = (i, limit, bool(v))
+    _, vpc = TypedEval({'i': (C_NAMED['Py_ssize_t'], -1), 'limit': (C_NAMED['Py_ssize_t'], 3)}, None).ev(cexpr.parse('i < limit'))
+    r.positive_control(bool(vpc), 'a signed comparison accepts i = -1')
+    if bad:
+        r.violate('TypeConversion.c:__Pyx_is_valid_index', 'Cython/Utility/' + d.file, d.line,
+                  '__Pyx_is_valid_index(%d, %d) is %s (`%s`): every fast-path index check built on it (list / tuple / bytearray / unicode item access, memoryview integer index) %s'
+                  % (bad[0], bad[1], 'true' if bad[2] else 'false', m.group(1), 'lets an index outside [0, limit) reach the array access' if bad[2] else 'rejects a valid index'))
+    return r
+
+
+# ---------------------------------------------------------------------------------------------- C36-INIT
+def rule_init(ctx):
+    from .pC32 import Evaluator, Obj, Fresh, Call, Str, NOTFOUND
+    ix = ctx.index
+    r = Rule('C36-INIT', 'unbound / uninitialised checks: NameNode emits put_error_if_unbound for a local exactly when it may be NULL, NULL is not allowed and it is an object or a memoryview under '
+                         'initializedcheck; the emitted checks test `!value`, raise and take the error exit', floor=30)
+    rel = 'Cython/Compiler/ExprNodes.py'
+    cls = ix.cls('ExprNodes', 'NameNode')
+    got = ix.find_method(cls, 'generate_result_code')
+    if got is None:
+        raise AnalysisError('NameNode.generate_result_code vanished')
+    fn = got[1]
+    # the branch for locals: the `elif` whose test mentions entry.is_local
+    branch = None
+    for n in ast.walk(fn):
+        if isinstance(n, ast.If) and 'is_local' in ast.unparse(n.test) and any(isinstance(c, ast.Call) and getattr(c.func, 'attr', '') == 'put_error_if_unbound' for c in ast.walk(n)):
+            branch = n
+            break
+    if branch is None:
+        raise AnalysisError('C36-INIT: the local-variable branch of NameNode.generate_result_code (test on entry.is_local, call of put_error_if_unbound) was not found')
+
+    dom = {'self.cf_maybe_null': (False, True), 'self.cf_is_null': (False, True), 'self.allow_null': (False, True), 'self.initialized_check': (False, True),
+           'kind': ('object', 'memoryview', 'other')}
+    keys = sorted(dom)
+    bad = None
+    for combo in itertools.product(*[dom[k] for k in keys]):
+        pt = dict(zip(keys, combo))
+        point = {'self.cf_maybe_null': pt['self.cf_maybe_null'], 'self.cf_is_null': pt['self.cf_is_null'], 'self.allow_null': pt['self.allow_null'],
+                 'self.initialized_check': pt['self.initialized_check'], 'entry.type.is_pyobject': pt['kind'] == 'object', 'entry.type.is_memoryviewslice': pt['kind'] == 'memoryview',
+                 'entry.is_cpp_optional': False, 'self.entry.is_cpp_optional': False}
+
+        def call_oracle(f, a, k):
+            if f.endswith('check_for_null_code'):
+                return Fresh('null check code')
+            return NOTFOUND
+        ev = Evaluator(lambda p: point.get(p, NOTFOUND), call_oracle, what='NameNode.generate_result_code')
+        outs = set()
+        for p in ev.run_block(branch.body, {'self': Obj('self', True), 'entry': Obj('entry', True), 'code': Obj('code', True)}):
+            outs.add(any(isinstance(e, Call) and e.name == 'put_error_if_unbound' for e in p.events))
+        if len(outs) != 1:
+            raise AnalysisError('C36-INIT: the unbound check of NameNode is not decided by %s' % pt)
+        got_check = outs.pop()
+        want = (pt['self.cf_maybe_null'] or pt['self.cf_is_null']) and not pt['self.allow_null'] and (pt['kind'] == 'object' or (pt['kind'] == 'memoryview' and pt['self.initialized_check']))
+        r.inst('init:name:%s' % sorted(pt.items()))
+        if got_check != want and bad is None:
+            bad = (pt, got_check)
+    if bad:
+        pt, g = bad
+        r.violate('ExprNodes.NameNode.generate_result_code:unbound-check', rel, branch.lineno,
+                  'NameNode.generate_result_code %s the unbound / uninitialised check for a %s local with cf_maybe_null=%s, cf_is_null=%s, allow_null=%s, initializedcheck=%s: %s'
+                  % ('omits' if not g else 'emits', pt['kind'], pt['self.cf_maybe_null'], pt['self.cf_is_null'], pt['self.allow_null'], pt['self.initialized_check'],
+                     'a NULL object pointer / memoryview without buffer is used by the following code' if not g else 'valid code raises UnboundLocalError'))
+    # ---- the emitted text of the two checks
+    writer = ix.cls('Code', 'CCodeWriter')
+    pe = ix.find_method(writer, 'put_error_if_unbound')
+    if pe is None:
+        raise AnalysisError('CCodeWriter.put_error_if_unbound vanished')
+    chk = Fresh('CHECK')
+
+    def shape_problem(text, value_marker):
+        """text: emitted C with the tested value spelled `value_marker`; must be  if (unlikely(!V)) { <raise>; goto error; }"""
+        t = ' '.join(text.split())
+        m = re.match(r'^if \((.*?)\) \{(.*)\}$', t)
+        if not m:
+            return 'is not a single `if (...) { ... }` statement'
+        c = _c_strip(m.group(1))
+        if not re.fullmatch(r'!\s*\(?%s\)?' % re.escape(value_marker), c):
+            return 'tests `%s` instead of `!%s`' % (c, value_marker)
+        body = m.group(2)
+        if 'GOTO_ERROR' not in body:
+            return 'does not take the error exit after raising'
+        if not re.search(r'\b(?:__Pyx_Raise\w+|PyErr_\w+)\s*\(', body):
+            return 'does not raise'
+        return None
+    texts = []
+    for from_closure in (False, True):
+        point = {'entry.from_closure': from_closure, 'entry.type.is_cpp_class': False, 'in_nogil_context': False}
+
+        def call_oracle(f, a, k):
+            if f == 'self.error_goto':
+                return 'GOTO_ERROR;'
+            if f.endswith('as_c_string_literal'):
+                return '"name"'
+            return NOTFOUND
+        ev = Evaluator(lambda p: point.get(p, NOTFOUND), call_oracle, what='put_error_if_unbound')
+        for p in ev.run_function(pe[1], {'unbound_check_code': chk}):
+            for e in p.events:
+                if isinstance(e, Call) and e.name == 'putln' and e.args and isinstance(e.args[0], Str):
+                    texts.append(''.join(x if isinstance(x, str) else ('CHECK' if x is chk else 'FUNC') for x in e.args[0].parts))
+    if not texts:
+        raise AnalysisError('C36-INIT: put_error_if_unbound emits no statement')
+    for tx in sorted(set(texts)):
+        r.inst('init:put_error_if_unbound', sample=tx)
+        pb = shape_problem(tx, 'CHECK')
+        if pb:
+            r.violate('Code.CCodeWriter.put_error_if_unbound', 'Cython/Compiler/Code.py', pe[1].lineno, 'put_error_if_unbound emits `%s`, which %s: the unbound variable is used as it is' % (tx, pb))
+            break
+    # AttributeNode: memoryview attribute
+    acls = ix.cls('ExprNodes', 'AttributeNode')
+    ag = ix.find_method(acls, 'generate_result_code')
+    if ag is None:
+        raise AnalysisError('AttributeNode.generate_result_code vanished')
+    found = False
+    for n in ast.walk(ag[1]):
+        if isinstance(n, ast.If):
+            chain = n
+            if 'initialized_check' in ast.unparse(chain.test) and 'is_cpp_optional' not in ast.unparse(chain.test):
+                res = Fresh('RESULT')
+
+                def call_oracle(f, a, k):
+                    if f == 'code.error_goto':
+                        return 'GOTO_ERROR;'
+                    if f == 'self.result':
+                        return res
+                    return NOTFOUND
+                ev = Evaluator(lambda p: {'self.initialized_check': True}.get(p, NOTFOUND), call_oracle, what='AttributeNode.generate_result_code')
+                for p in ev.run_block(chain.body, {'self': Obj('self', True), 'code': Obj('code', True)}):
+                    for e in p.events:
+                        if isinstance(e, Call) and e.name == 'putln' and e.args and isinstance(e.args[0], Str):
+                            tx = ''.join(x if isinstance(x, str) else ('RESULT' if x is res else 'X') for x in e.args[0].parts)
+                            found = True
+                            r.inst('init:AttributeNode:memview', sample=tx)
+                            pb = shape_problem(tx, 'RESULT.memview')
+                            if pb:
+                                r.violate('ExprNodes.AttributeNode.generate_result_code:memview-check', rel, chain.lineno,
+                                          'the initializedcheck of a memoryview attribute emits `%s`, which %s' % (tx, pb))
+    if not found:
+        raise AnalysisError('C36-INIT: the initializedcheck branch of AttributeNode.generate_result_code was not found')
+    pc = shape_problem('if (unlikely(CHECK)) { __Pyx_RaiseUnboundLocalError("x"); GOTO_ERROR; }', 'CHECK')
+    r.positive_control(pc is not None, 'check without the negation')
+    return r
+
+
+def _c_strip(c):
+    c = c.strip()
+    while True:
+        m = re.fullmatch(r'(?:likely|unlikely)\s*\((.*)\)', c)
+        if m:
+            c = m.group(1).strip()
+            continue
+        if c.startswith('(') and c.endswith(')'):
+            d, ok = 0, True
+            for ch in c[1:-1]:
+                if ch == '(':
+                    d += 1
+                elif ch == ')':
+                    d -= 1
+                    if d < 0:
+                        ok = False
+                        break
+            if ok and d == 0:
+                c = c[1:-1].strip()
+                continue
+        return c
+
+
+# ---------------------------------------------------------------------------------------------- C36-SHIFTW
+class ShiftInterp(Interp):
+    """Interp + (a) a width check of every << / >> count, (b) refinement of a variable's magnitude by `v >= K` / `v < K` guards whose K is a model quantity."""
+
+    def __init__(self, model, size, params):
+        Interp.__init__(self, model, size, params)
+        self.shifts = {}            # expression text -> (count bound | None, width | None)
+        self.shift_findings = []
+
+    def ev(self, e, env, types):
+        if e[0] == 'bin' and e[1] in ('<<', '>>'):
+            a, ta = self.ev(e[2], env, types)
+            b, tb = self.ev(e[3], env, types)
+            pt = self._promote(ta)
+            width = pt[0] if pt else None
+            txt = unparse(e)
+            old = self.shifts.get(txt)
+            if old is None or (b is not None and (old[0] is None or b > old[0])):
+                self.shifts[txt] = (b, width)
+            if b is not None and width is not None and b >= width:
+                self.shift_findings.append((txt, b, width))
+            return (a, pt) if e[1] == '>>' else (None, pt)
+        if e[0] == 'bin' and e[1] == '&&':
+            # short circuit: the right operand is only evaluated when the left one holds
+            left = e[2]
+            while left[0] == 'call' and left[1] in ('likely', 'unlikely') and len(left[2]) == 1:
+                left = left[2][0]
+            self.ev(e[2], env, types)
+            env2 = env
+            if left[0] == 'bin' and left[1] in ('<', '<=') and left[2][0] == 'id' and left[2][1] in env and env[left[2][1]] is not None:
+                try:
+                    k = self._ceval(left[3], {'size': self.size, 'PyLong_SHIFT': self.m.shift})
+                    env2 = dict(env)
+                    env2[left[2][1]] = min(env2[left[2][1]], max(k - 1 if left[1] == '<' else k, 0))
+                except cexpr.EvalError:
+                    pass
+            self.ev(e[3], env2, types)
+            return 1, (32, True)
+        return Interp.ev(self, e, env, types)
+
+    def stmt(self, st, env, types):
+        if st.kind == 'if':
+            try:
+                ce = cexpr.parse(st.text)
+            except cexpr.ParseError:
+                return Interp.stmt(self, st, env, types)
+            core = ce
+            while core[0] == 'call' and core[1] in ('likely', 'unlikely') and len(core[2]) == 1:
+                core = core[2][0]
+            if core[0] == 'bin' and core[1] in ('>=', '>', '<', '<=') and core[2][0] == 'id':
+                try:
+                    k = self._ceval(core[3], {'size': self.size, 'PyLong_SHIFT': self.m.shift})
+                except cexpr.EvalError:
+                    k = None
+                v = core[2][1]
+                if k is not None and v in env and env[v] is not None:
+                    self.ev(ce, env, types)
+                    op = core[1]
+                    # bound of |v| when the test is true / false (v is a non-negative count here: only upper bounds are refined)
+                    hi_true = {'<': k - 1, '<=': k}.get(op)
+                    hi_false = {'>=': k - 1, '>': k}.get(op)
+                    outs = []
+                    et = dict(env)
+                    if hi_true is not None:
+                        et[v] = min(et[v], max(hi_true, 0))
+                    ef = dict(env)
+                    if hi_false is not None:
+                        ef[v] = min(ef[v], max(hi_false, 0))
+                    feasible_true = not (op in ('>=', '>') and env[v] < (k if op == '>=' else k + 1))
+                    if feasible_true:
+                        outs.extend(self.seq(pC17.as_list(st.body), et, dict(types)))
+                    if st.orelse is not None:
+                        outs.extend(self.seq(pC17.as_list(st.orelse), ef, dict(types)))
+                    else:
+                        outs.append(('fall', ef, dict(types)))
+                    return outs
+        return Interp.stmt(self, st, env, types)
+
+
+def admitted_shift_counts(ix, opname):
+    """largest constant shift count the Optimize.py handler of `opname` (__lshift__ / __rshift__) hands to the fast path; None = unbounded"""
+    from .pC32 import Evaluator, Obj, Call, NOTFOUND
+    cls = ix.cls('Optimize', 'OptimizeBuiltinCalls')
+    got = ix.find_method(cls, '_handle_simple_method_object_%s' % opname)
+    if got is None:
+        raise AnalysisError('Optimize.OptimizeBuiltinCalls._handle_simple_method_object_%s vanished' % opname)
+    fn = got[1]
+    admitted = []
+    cands = list(range(-2, 140)) + [2 ** 30, 2 ** 31, 2 ** 62, 2 ** 64]
+    for c in cands:
+        point = {'args[1].constant_result': c}
+
+        def call_oracle(f, a, k):
+            if f == 'isinstance':
+                return True
+            if f == 'len':
+                return 2
+            if f.endswith('has_constant_result'):
+                return True
+            return NOTFOUND
+        ev = Evaluator(lambda p: point.get(p, NOTFOUND), call_oracle, what='Optimize handler of %s' % opname)
+        res = set()
+        for p in ev.run_function(fn, {}):
+            if p.kind == 'return':
+                res.add(isinstance(p.ret, Call) and p.ret.name.startswith('_optimise_num'))
+        if len(res) != 1:
+            raise AnalysisError('C36-SHIFTW: the handler of %s is not decided for the constant %d' % (opname, c))
+        if res.pop():
+            admitted.append(c)
+    if not admitted:
+        raise AnalysisError('C36-SHIFTW: the handler of %s admits no constant' % opname)
+    if min(admitted) < 0:
+        return fn, None, min(admitted)
+    return fn, (None if max(admitted) >= 2 ** 30 else max(admitted)), min(admitted)
+
+
+def unvalidated_lshifts(body_text):
+    """-> [(result variable, shifted operand, count, validated on every path to a return that mentions the variable)]"""
+    from . import pC35 as _cfg
+    cfg = _cfg.CFG(body_text)
+    out = []
+    for nid, node in enumerate(cfg.nodes):
+        if node.kind != 'ev':
+            continue
+        m = re.match(r'^(?:[\w\s]+\s)?([A-Za-z_]\w*)\s*=\s*([A-Za-z_]\w*)\s*<<\s*([A-Za-z_]\w*)$', node.text.strip())
+        if not m:
+            continue
+        v, l, c = m.groups()
+        back = re.compile(r'\b%s\s*>>\s*%s\b' % (re.escape(v), re.escape(c)))
+        ok = True
+        seen, work = set(), [(s2, False) for s2 in node.succ]
+        while work:
+            x, val = work.pop()
+            if (x, val) in seen:
+                continue
+            seen.add((x, val))
+            nd = cfg.nodes[x]
+            if nd.kind == 'br' and back.search(nd.text) and re.search(r'\b%s\b' % re.escape(l), back.sub('', nd.text)) and re.search(r'==|!=', nd.text):
+                val = True
+            if nd.kind == 'ret':
+                if re.search(r'\b%s\b' % re.escape(v), nd.text) and not val:
+                    ok = False
+                continue
+            if nd.kind == 'ev' and re.match(r'^%s\s*=(?!=)' % re.escape(v), nd.text.strip()):
+                continue              # the variable is overwritten
+            for s2 in nd.succ:
+                work.append((s2, val))
+        out.append((v, l, c, ok))
+    return out
+
+
+def rule_shiftw(ctx):
+    import struct
+    from . import pC35 as _cfg
+    r = Rule('C36-SHIFTW', 'shift counts of the PyLongBinop unpacked fast path (Lshift / Rshift with a constant count admitted by Optimize.py) stay below the width of the shifted type '
+                           'unless the statement sits behind a width test', floor=5)
+    sec = ctx.cat.files.get(UFILE, {}).get(SECTION)
+    if not sec or 'impl' not in sec:
+        raise AnalysisError('Optimize.c::PyLongBinop missing')
+    tree = P.tpl_tree(sec['impl'].raw)
+    host_long = struct.calcsize('l')
+    from ..props import C02
+    shifts = C02.pylong_shifts()
+    for op, handler in (('Lshift', '__lshift__'), ('Rshift', '__rshift__')):
+        fn, cmax, cmin = admitted_shift_counts(ctx.index, handler)
+        if cmin < 0:
+            r.inst('shiftw:%s:handler' % op)
+            r.violate('Optimize.OptimizeBuiltinCalls._handle_simple_method_object_%s:negative' % handler, 'Cython/Compiler/Optimize.py', fn.lineno,
+                      'the %s handler admits the negative constant shift count %d into the C fast path: shifting by a negative count is undefined behaviour' % (op, cmin))
+            continue
+        bound = cmax if cmax is not None else 2 ** 30
+        text = P.tpl_expand(tree, dict(op=op, order='ObjC', ret_type=P.Obj(is_pyobject=True)))
+        fb = function_body(strip_c_comments(text), '__Pyx_Unpacked_')
+        if fb is None:
+            raise AnalysisError('C36-SHIFTW: __Pyx_Unpacked_* not found for %s' % op)
+        name, params, body = fb
+        variants = _cfg.pp_variants(body)
+        if variants is None:
+            raise AnalysisError('C36-SHIFTW: too many preprocessor variants in %s' % name)
+        ptypes = {}
+        for p in params.split(','):
+            mm = re.match(r'^\s*(.*?)(\w+)\s*$', p, re.S)
+            if mm:
+                ptypes[mm.group(2)] = ' '.join(mm.group(1).replace('*', ' * ').split())
+        sizes = sorted({int(x) for x in re.findall(r'\bsize\s*==\s*(\d+)', body)}) or [1]
+        seen = set()
+        for label, vtext in variants:
+            top = pC17.parse_body(vtext)
+            for wlong in (4, 8):
+                for sh in shifts:
+                    model = Model(wlong, sh, bound)
+                    for size in sizes + [max(sizes) + 1]:
+                        it = ShiftInterp(model, size, {n: (t, bound if n == 'intval' else None) for n, t in ptypes.items()})
+                        it.run(top)
+                        for txt, (b, w) in it.shifts.items():
+                            if txt not in seen:
+                                seen.add(txt)
+                                r.inst('shiftw:%s:%s' % (op, txt), sample='%s: `%s` count <= %s, width %s' % (op, txt, b, w))
+                        for txt, b, w in it.shift_findings:
+                            key = 'shiftw:%s:%s' % (op, txt)
+                            msg = ('PyLongBinop(op=%s): `%s` is executed with a shift count of up to %d in a %d-bit type (sizeof(long)=%d; the %s handler of Optimize.py admits constant counts up to %s): '
+                                   'a shift by >= the width is undefined behaviour (x86 masks the count: `x << 64` yields x)' % (op, txt, b, w, wlong, handler, cmax if cmax is not None else 'any value'))
+                            if wlong == host_long:
+                                if key not in {f.construct for f in r.findings}:
+                                    r.violate(key, REL_C, sec['impl'].line, msg)
+                            else:
+                                note = 'other data model (sizeof(long)=%d): %s' % (wlong, msg)
+                                if note not in r.infos:
+                                    r.info(note)
+            # ---- a signed left shift whose result need not fit is validated by a round trip before the value is used as the result
+            if op == 'Lshift':
+                for label, vtext in variants:
+                    for v, l, c, ok in unvalidated_lshifts(vtext):
+                        key = 'shiftw:Lshift:validate:%s' % v
+                        if key not in seen:
+                            seen.add(key)
+                            r.inst(key, sample='`%s = %s << %s` validated before return: %s' % (v, l, c, ok))
+                        if not ok and key not in {f.construct for f in r.findings}:
+                            r.violate(key, REL_C, sec['impl'].line,
+                                      'PyLongBinop(op=Lshift): `%s = %s << %s` reaches a `return` of %s without a round-trip test (`%s == %s >> %s`, mismatch -> wider path): the shifted value can have up to %s '
+                                      'bits, so the signed shift overflows (undefined behaviour) and the truncated value is returned instead of the arbitrary-precision result' % (v, l, c, v, l, v, c, 'size*PyLong_SHIFT + %s' % (cmax if cmax is not None else 'any')))
+    # positive control
+    pc = '{ long x; x = a << b; return PyLong_FromLong(x); }'
+    it = ShiftInterp(Model(8, 30, 64), 1, {'a': ('long', None), 'b': ('long', 64)})
+    it.run(pC17.parse_body(pc))
+    it2 = ShiftInterp(Model(8, 30, 64), 1, {'a': ('long', None), 'b': ('long', 64)})
+    it2.run(pC17.parse_body('{ long x; if (b >= (long)(sizeof(long)*8)) { x = 0; } else x = a >> b; return PyLong_FromLong(x); }'))
+    r.positive_control(bool(it.shift_findings) and not it2.shift_findings, 'unguarded shift by up to 64; the same shift behind a width test')
+    return r
